@@ -131,6 +131,25 @@ def value_cases(ctx):
         add("identity-masks", n, [[1] + [2] * (n - 1)], id_prob=0.0)
         add("identity-masks", n, [[2] * (n - 1) + [1]], id_prob=0.0)
         add("identity-masks", n, [[2] * (n - 2) + [1, 2]], id_prob=0.0)
+    # complementary identity masks: consecutive layers (one backend object, one call) whose runs have the same lengths - so psi
+    # is reshaped into the same legs - but with identities and non-identities exchanged
+    for n in range(8, nmax + 1):
+        for rep in range(4 if T else 2):
+            runs, left = [], n
+            while left:
+                r = 1 if (rep == 0 or left == 1) else rng.choice([1, 1, 2])
+                runs.append(r); left -= r
+            def lay(first_non):
+                out, non = [], first_non
+                for r in runs:
+                    if non:
+                        out += ([4, 0] if rng.random() < 0.5 else [0, 4]) if (r == 2 and rng.random() < 0.5) else [2] * r
+                    else:
+                        out += [1] * r
+                    non = not non
+                return out
+            A, B = lay(True), lay(False)
+            add("complementary-masks", n, [A, B] if rep % 2 == 0 else [B, A, B], id_prob=0.0, backends=["ones"] if n > 10 else None)
     # richer entries (1+i, 2, ...), basis vectors
     for _ in range(120 if T else 40):
         n = rng.randint(1, 8)
@@ -517,6 +536,42 @@ def main(ctx):
                       "psi": L.flat_ints(case["psi"]), "max_abs_err": err},
                      f"{CLASS[b]}(n={n}) on float data with near-identity entries 1 + 1e-6*E: result differs from the oracle by "
                      f"{err:.2e} (tolerance 1e-10; an entry wrongly treated as the identity gives ~1e-6)")
+    # wide dynamic range (float data; scalings by powers of two are exact): entries far below 1e-8 next to entries far above 1 -
+    # nothing may be dropped or rounded away because it is small in absolute terms
+    side["dynamic_range"] = 0
+    for _ in range(60 if ctx.thorough else 16):
+        n = rng.randint(2, 8)
+        case = L.build_case(rng, n, [L.rand_shape(rng, n, 0.3) for _ in range(rng.randint(1, 2))], id_prob=0.2)
+        case["mats"] = [np.array(M, dtype=complex) for M in case["mats"]]
+        used = sorted({k for l in case["layers"] for k in l if k > 0})          # index 0 is the exact identity
+        if len(used) < 2:
+            continue
+        k = rng.choice([31, 34, 40])
+        a, b = rng.sample(used, 2)
+        case["mats"][a] = case["mats"][a] * 2.0 ** -k
+        case["mats"][b] = case["mats"][b] * 2.0 ** k
+        want = L.oracle_factor(case)
+        scale = max(float(np.max(np.abs(want))), 2.0 ** -k)
+        codes = [L.codes_of(case, i) for i in range(len(case["layers"]))]
+        runs = [(bk, (lambda bk=bk: L.run_layers(bk, case))) for bk in LAYER_BACKENDS
+                if in_domain(bk, n, case["min"], case["opt"], codes, 2 ** n)]
+        runs.append(("binary", lambda: L.run_binary(case, optimize=False)))
+        for bk, go in runs:
+            r, vec, _ = go()
+            ctx.count()
+            side["dynamic_range"] += 1
+            if vec is None or np.asarray(vec).ndim != 1 or np.asarray(vec).dtype.kind == "O":
+                continue                       # exceptions / object results on integer-like data are the exact stream's business
+            err = float(np.max(np.abs(np.asarray(vec).astype(complex) - want)))
+            if err > 1e-10 * scale:
+                fail({"backend": CLASS.get(bk, "BinaryBackend"), "kind": "float-dynamic-range-mismatch"}, n,
+                     {"mode": "float-scaled", "backend": bk, "n": n, "min": case["min"], "opt": case["opt"], "layers": case["layers"],
+                      "mats": [[[float(z.real), float(z.imag)] for z in np.asarray(M, dtype=complex).reshape(-1)] for M in case["mats"]],
+                      "psi": L.flat_ints(case["psi"]),
+                      "scaled": {"mat": [a, b], "by": [f"2^-{k}", f"2^{k}"]}, "max_abs_err": err, "scale": scale},
+                     f"{CLASS.get(bk, 'BinaryBackend')}(n={n}) on layers {codes} with one matrix scaled by 2^-{k} and another by 2^{k} "
+                     f"(exact scalings): result differs from the layered Kronecker product by {err:.2e} (largest entry {scale:.2e}) - "
+                     f"small entries were dropped or rounded away")
     # the index-based backend on the same matrices item by item
     # (a) the item lists handed to the real BinaryBackend have the qubits `itemQubits` (the theorem's item list) names
     ireqs, iwant = [], []
@@ -719,6 +774,26 @@ def replay(ctx, path):
         cs = r.get("ok")
         bad = cs is None or sum(cs, []) != list(range(rp["len"])) or any(len(c) < rp["min"] for c in cs)
         print("_chunk_list ->", r, "VIOLATES partition" if bad else "holds"); return 1 if bad else 0
+    if mode == "float-scaled":
+        mats = []
+        for f in rp["mats"]:
+            d = int(round(len(f) ** 0.5))
+            M = np.array([complex(a, b) for a, b in f]).reshape(d, d)
+            mats.append(L.ID2 if np.array_equal(M, L.ID2) else M)
+        f = rp["psi"]
+        psi = np.array([complex(f[2 * i], f[2 * i + 1]) for i in range(len(f) // 2)])
+        case = {"n": rp["n"], "min": rp["min"], "opt": rp["opt"], "mats": mats, "layers": rp["layers"], "psi": psi}
+        want = L.oracle_factor(case)
+        bk = rp["backend"]
+        r, vec, _ = L.run_binary(case, optimize=False) if bk == "binary" else L.run_layers(bk, case)
+        if vec is None:
+            print("implementation:", r); return 1
+        err = float(np.max(np.abs(np.asarray(vec).astype(complex) - want)))
+        scale = float(np.max(np.abs(want)))
+        print(f"{CLASS.get(bk, 'BinaryBackend')}(n={rp['n']}), matrices {rp['scaled']['mat']} scaled by {rp['scaled']['by']}: "
+              f"max |result - layered Kronecker product| = {err:.3e}, largest entry {scale:.3e}")
+        bad = err > 1e-10 * max(scale, 1e-300)
+        print("verdict:", "small entries were dropped or rounded away" if bad else "holds"); return 1 if bad else 0
     if mode == "float":
         mats = []
         for f in rp["mats"]:
